@@ -26,11 +26,19 @@ Definition sibling_of (i : instr) : sibling :=
      sb_kind := match i_data i with IxTokTransferChecked amt _ => SibTransferChecked amt | _ => SibOther end;
      sb_accounts := keys_of (i_metas i) |}.
 
+(* the runtime's per-instruction check: the lamports of the instruction's accounts sum to the same total before and
+   after every instruction frame (InstructionError::UnbalancedInstruction) *)
+Fixpoint dedup_keys (l : list key) : list key :=
+  match l with [] => [] | k :: tl => if existsb (key_eqb k) tl then dedup_keys tl else k :: dedup_keys tl end.
+Definition lamports_sum (W : world) (ks : list key) : N := sumN (map (fun k => lamports (get W k)) ks).
+Definition balanced (ms : list meta) (W W' : world) : bool :=
+  let ks := dedup_keys (keys_of ms) in lamports_sum W ks =? lamports_sum W' ks.
+
 (* one instruction at stack height `h` with the callee-visible metas `ms` *)
 Fixpoint exec_data (prog : key) (d : ixdata) (ms : list meta) (h : N) (sib : option sibling) (W : world) {struct d}
   : result world :=
   let cx := {| cx_prog := prog; cx_metas := ms; cx_height := h; cx_sibling := sib |} in
-  match prog, d with
+  W' <- match prog, d with
   | KPassport, IxPassport i => pp_process cx W i
   | KRd, IxRd i => rd_process cx W i
   | KSwapMock, IxSwap i => sw_process cx W i
@@ -63,7 +71,9 @@ Fixpoint exec_data (prog : key) (d : ixdata) (ms : list meta) (h : N) (sib : opt
         {| sb_prog := KToken; sb_kind := SibTransferChecked z; sb_accounts := [nthk ms 0; nthk ms 1; nthk ms 2; nthk ms 3] |}
   | _, IxNoop => Ok W
   | _, _ => Err EInvalidInstructionData
-  end.
+  end ;;
+  _ <- require (balanced ms W W') (ERuntime 7) ;;
+  Ok W'.
 
 (* a transaction: the keys that signed it (fee payer included) and its instructions with the metas as written *)
 Record tx := { tx_signers : list key; tx_ixs : list instr }.
